@@ -6,6 +6,7 @@ specification S (coq/SlabSpec.v: one flat n-d array) vs the extracted implementa
 hdf_xdr_NCvdata incl. the exact sequence of Hsetlength/Hwrite/Hread transfers on the data element),
 on generated operation histories.  R vs S decides the property; R vs M is the tie of the proofs to the code."""
 import os
+import re
 import vcommon as vc
 
 RULE = ("histories = one dataset per fresh file: rank 0..4 (+ spot ranks 8 and 32), extents 1..6, optional unlimited "
@@ -219,8 +220,9 @@ def run_batch(ctx, hists, tag):
     rc, R = run_harness(exe, p, h5)
     rcm, MS = vc.run_lines(mod, p, timeout=1200)
     os.unlink(p)
-    if os.path.exists(h5):
-        os.unlink(h5)
+    import glob
+    for x in glob.glob(h5 + "*"):
+        os.unlink(x)
     if rcm != 0:
         raise vc.BuildError("model driver failed (rc=%d): %s" % (rcm, "\n".join(MS[-5:])))
     S = [l[2:] for l in MS if l.startswith("S ")]
@@ -243,6 +245,27 @@ def split_hist(lines, hists):
     return out
 
 
+RLINE = re.compile(r"^(H (ok|fail)$|[MVB] -?\d+$|W -?\d+ \||R -?\d+ g[01] \d+|G -?\d+ |[CE] (ok|fail)$)")
+
+
+def split_r(lines, hists):
+    """Harness output per history.  Sanitizer reports and other noise are set aside (returned as the third
+    component for the history during which they appeared)."""
+    out, noise = [[]], [[]]
+    for l in lines:
+        if RLINE.match(l):
+            out[-1].append(l)
+            if l[0] == "E":
+                out.append([])
+                noise.append([])
+        else:
+            noise[-1].append(l)
+    while len(out) < len(hists):
+        out.append([])
+        noise.append([])
+    return out[:len(hists)], noise[:len(hists)]
+
+
 def parse_r_read(line):
     # R rc g<0|1> n hex.. | transfers
     head, _, tr = line.partition("|")
@@ -256,7 +279,7 @@ def cmp_spec(hl, r, s, meta):
     if op == "H":
         return None if r == "H ok" else "SDcreate failed: " + r
     if op == "E":
-        return None
+        return None if r == "E ok" else "SDendaccess/SDend failed: " + r
     if op in "MVB":
         return None if not r.endswith(" -1") else "%s returned FAIL: %s" % (hl.split()[0], r)
     if op == "C":
@@ -405,6 +428,9 @@ def meta_of(h):
 
 def run_one(ctx, h, tag="one"):
     rc, R, S, M = run_batch(ctx, [h], tag)
+    (Rh, noise), _, _ = split_r(R, [h]), 0, 0
+    R = Rh[0]
+    run_one.noise = noise[0]
     meta = meta_of(h)
     sp, mp = check_history(h, R, S, M, meta)
     return sp, mp, R, S, M
@@ -442,15 +468,16 @@ def side_by_side(h, R, S, M):
     return out
 
 
-def report(ctx, h, sp, mp, R, S, M):
+def report(ctx, h, sp, mp, R, S, M, noise=()):
     if sp:
         small = shrink(ctx, h, True)
         sp2, mp2, R2, S2, M2 = run_one(ctx, small, "rep")
+        noise = run_one.noise or noise
         if not sp2:
             small, sp2, R2, S2, M2 = h, sp, R, S, M
         txt = ["# C03 replay: bin/check C03 --replay <this file>",
                "# library (R) disagrees with the n-d array specification (S) at op %d: %s" % sp2] + \
-            side_by_side(small, R2, S2, M2) + small
+            side_by_side(small, R2, S2, M2) + ["# harness stderr: " + x[:200] for x in list(noise)[:25]] + small
         ctx.violation("SD hyperslab I/O differs from the n-d array: " + sp2[1], "\n".join(txt), found=True,
                       signature=signature(small, min(sp2[0], len(small) - 1)))
     elif mp:
@@ -526,11 +553,15 @@ def run(ctx):
              "read_ok": 0, "read_fail": 0, "read_any": 0, "cells_compared": 0, "unlimited": 0, "strided_ops": 0,
              "reopen": 0, "nofill_histories": 0, "rank_hist": {}, "type_hist": {}, "harness_deaths": 0,
              "model_compared_ops": 0}
-    todo = list(hists)
+    queue = list(hists)
+    todo = []
     base = 0
-    while todo:
+    CH = 120     # histories per harness process (keeps one process's leaked state from piling up)
+    while todo or queue:
+        if not todo:
+            todo, queue = queue[:CH], queue[CH:]
         rc, R, S, M = run_batch(ctx, todo, "main")
-        Rh, Sh, Mh = split_hist(R, todo), split_hist(S, todo), split_hist(M, todo)
+        (Rh, noise), Sh, Mh = split_r(R, todo), split_hist(S, todo), split_hist(M, todo)
         died_at = None
         for k, h in enumerate(todo):
             if len(Rh[k]) < len(h):
@@ -559,15 +590,17 @@ def run(ctx):
             if sp or mp:
                 if died_at == k:
                     stats["harness_deaths"] += 1
-                report(ctx, h, sp, mp, Rh[k], Sh[k], Mh[k])
+                report(ctx, h, sp, mp, Rh[k], Sh[k], Mh[k], noise[k])
             if died_at is not None or len(ctx.violations) >= 3:
                 break
         if len(ctx.violations) >= 3:
             break
         if died_at is None:
-            break
-        base += died_at + 1
-        todo = todo[died_at + 1:]
+            base += len(todo)
+            todo = []
+        else:
+            base += died_at + 1
+            todo = todo[died_at + 1:]
     stats["boundary_hits"] = {"oob_requests": stats["write_fail"] + stats["read_fail"],
                               "degenerate_requests": stats["write_any"] + stats["read_any"]}
     ctx.corr("SD~array-spec~slab-model", **stats)
@@ -588,6 +621,8 @@ def replay(ctx, path):
     for h in hs:
         sp, mp, R, S, M = run_one(ctx, h, "replay")
         print("\n".join(x[2:] if x.startswith("# ") else x for x in side_by_side(h, R, S, M)))
+        if run_one.noise:
+            print("\n".join(run_one.noise[:40]))
         if sp:
             print("DISAGREES with the specification at op %d: %s" % sp)
             bad = 1
